@@ -24,7 +24,9 @@ func GenCmdCachePlan(seed uint64) *Plan {
 	n := g.rng(4, 80)
 	for i := 0; i < n; i++ {
 		op := SmallOp{Task: g.intn(3)}
-		switch g.weighted(45, 20, 18, 7, 10) {
+		switch g.weighted(45, 20, 18, 7, 10, 6) {
+		case 5:
+			op.Op, op.A, op.B = "cancelrace", g.intn(p.Knobs["clients"]), 0 // an Add wakes a blocked Get; its context is cancelled before it looks at the cache
 		case 0:
 			op.Op, op.A, op.B = "add", g.intn(p.Knobs["clients"]), g.intn(3) // B: 0 next seq, 1 repeat an old seq, 2 skip ahead
 		case 1:
@@ -81,6 +83,21 @@ func ccRun(p *Plan, res *Result, logw io.Writer) {
 	B := p.knob("batch", 1)
 	nclients := p.knob("clients", 1)
 	cache := clientpb.NewCommandCache(uint32(B))
+	var parkMu sync.Mutex
+	parkArmed, parked := false, false
+	parkCh := make(chan struct{})
+	clientpb.VerifYield = func(string) {
+		parkMu.Lock()
+		p := parkArmed
+		if p {
+			parkArmed, parked = false, true
+		}
+		parkMu.Unlock()
+		if p {
+			<-parkCh
+		}
+	}
+	defer func() { clientpb.VerifYield = nil }()
 	var fp uint64
 	logf := func(format string, a ...any) {
 		line := fmt.Sprintf(format, a...)
@@ -206,6 +223,24 @@ func ccRun(p *Plan, res *Result, logw io.Writer) {
 			break
 		}
 		st.Steps++
+		race := false
+		if op.Op == "cancelrace" {
+			// only meaningful when somebody is blocked in Get
+			mu.Lock()
+			for _, g := range gets {
+				if !g.reported && !g.canceled {
+					race = true
+				}
+			}
+			mu.Unlock()
+			if !race {
+				continue
+			}
+			parkMu.Lock()
+			parkArmed = true
+			parkMu.Unlock()
+			op.Op, op.B = "add", 0
+		}
 		switch op.Op {
 		case "add":
 			c := uint32(op.A + 1)
@@ -236,6 +271,29 @@ func ccRun(p *Plan, res *Result, logw io.Writer) {
 			}
 			known = append(known, cc)
 			cache.Add(cmd)
+			if race {
+				synctest.Wait()
+				parkMu.Lock()
+				isParked := parked
+				parkArmed = false
+				parkMu.Unlock()
+				if isParked {
+					// the woken Get has consumed the ready signal and has not looked at the cache yet: cancel it now
+					mu.Lock()
+					for _, g := range gets {
+						if !g.reported && !g.canceled && !g.done {
+							g.canceled = true
+							g.cancel()
+						}
+					}
+					mu.Unlock()
+					st.Faults["cancel-between-wake-and-extract"]++
+					parkMu.Lock()
+					parked = false
+					parkMu.Unlock()
+					parkCh <- struct{}{}
+				}
+			}
 			settle()
 		case "get":
 			mu.Lock()
